@@ -627,10 +627,14 @@ func (w *World) poolOp(op J) (J, error) {
 		}
 		return okRes(out), nil
 	case "Connect":
+		ver := "v"
+		if has(op, "ver") { // the node's client version string (what web3_clientVersion said): says nothing the pool may act on
+			ver = str(op, "ver")
+		}
 		mk := func(kind string, full bool, payout string) pool.ConnectRequest {
 			return pool.ConnectRequest{
 				VipnodeVersion: "vipverif",
-				NodeInfo:       ethnode.UserAgent{Version: "v", Kind: ethnode.ParseNodeKind(kind), IsFullNode: full},
+				NodeInfo:       ethnode.UserAgent{Version: ver, EthProtocol: "0x3f", Kind: ethnode.ParseNodeKind(kind), Network: 1, IsFullNode: full},
 				NodeURI:        nodeURIOf(w, op),
 				Payout:         w.names.wallet(payout),
 			}
